@@ -1,7 +1,10 @@
 package main
 
 import (
+	"fmt"
 	"go/token"
+	"go/types"
+	"golang.org/x/tools/go/ssa"
 	"sort"
 	"strings"
 )
@@ -22,6 +25,7 @@ func runC20(a *A) {
 	a.Rule("ownmap/singleton-state", 3, func() { a.ruleSingletonState() })
 	a.Rule("flow/pooled-map-cleared", 1, func() { a.rulePooledMapsModule() })
 	a.Rule("ownmap/shared-state", 5, func() { a.ruleSharedState() })
+	a.Rule("ownmap/registered-functions-stateless", 100, func() { a.ruleRegisteredFunctionsStateless() })
 }
 
 func (a *A) rulePooledMapsModule() {
@@ -64,4 +68,77 @@ func (a *A) ruleSharedState() {
 			a.Bad("global:"+g, token.NoPos, "package-level variable %s is written by %v: new process-wide mutable state through which two instances can influence each other (not in the reviewed table)", g, gw[g])
 		}
 	}
+}
+
+// ruleRegisteredFunctionsStateless: the objects in the function registry are process-wide singletons
+// shared by every query of every instance. Their Validate and Execute methods run per query / per row
+// on the singleton itself, so they must not store into it: state written there by one query (the N of
+// nth_value, a parsed option) is inherited by every instance created later with New(). Only the
+// per-group instances returned by New() may accumulate state (Add/Reset/Result).
+func (a *A) ruleRegisteredFunctionsStateless() int {
+	iface := a.Iface("functions", "Function")
+	n := 0
+	for _, T := range a.namedTypesOf(a.Pkg("functions")) {
+		pt := types.NewPointer(T)
+		if !typesImplements(pt, iface) {
+			continue
+		}
+		for _, mname := range []string{"Validate", "Execute"} {
+			fn := a.methodOf(T, mname)
+			if fn == nil || fn.Blocks == nil || len(fn.Params) == 0 {
+				continue
+			}
+			// promoted methods of embedded BaseFunction are judged once, on BaseFunction
+			if rt := fn.Signature.Recv().Type(); !types.Identical(rt, pt) {
+				continue
+			}
+			n++
+			recv := fn.Params[0]
+			var bad *ssa.Store
+			allInstrs(fn, func(in ssa.Instruction) {
+				st, ok := in.(*ssa.Store)
+				if !ok || bad != nil {
+					return
+				}
+				v := st.Addr
+				for i := 0; i < 6; i++ {
+					switch x := v.(type) {
+					case *ssa.FieldAddr:
+						v = x.X
+						continue
+					case *ssa.IndexAddr:
+						v = x.X
+						continue
+					}
+					break
+				}
+				if v == ssa.Value(recv) {
+					bad = st
+				}
+			})
+			construct := fmt.Sprintf("(*functions.%s).%s#stateless", T.Obj().Name(), mname)
+			if bad == nil {
+				a.Ok(construct, fn.Pos(), "does not store into the registered singleton").Trivial = true
+			} else {
+				a.Bad(construct, bad.Pos(), "%s stores into its receiver (%s), the process-wide singleton in the function registry: what one query writes there is inherited by every instance created later with New(), in every Streamsql instance", mname, TermOf(bad.Addr, nil).String())
+			}
+		}
+	}
+	return n
+}
+
+// namedTypesOf: the named (non-interface) types declared in package p, sorted by name.
+func (a *A) namedTypesOf(p *ssa.Package) []*types.Named {
+	var out []*types.Named
+	sc := p.Pkg.Scope()
+	for _, nm := range sc.Names() {
+		if tn, ok := sc.Lookup(nm).(*types.TypeName); ok && !tn.IsAlias() {
+			if n, ok := tn.Type().(*types.Named); ok {
+				if _, isI := n.Underlying().(*types.Interface); !isI {
+					out = append(out, n)
+				}
+			}
+		}
+	}
+	return out
 }
